@@ -478,7 +478,7 @@ theorem count_step (c : Config) (st : State) (op : Op) (h : Inv st) :
         have e2 : nInit [Obs.attempt] = 0 := by simp [nInit]
         have e3 : nDestr [Obs.startFailed] = 0 := by simp [nDestr]
         have e4 : nInit [Obs.startFailed] = 0 := by simp [nInit]
-        simp only [] at this
+        have e5 : b2n ({ st with conn := Conn.connecting } : State).session = b2n st.session := rfl
         omega
     · simp [nDestr, nInit]
   | tick =>
@@ -582,7 +582,66 @@ theorem reset_doStop (c : Config) (st : State) (h : obsClosed (doStop c st).2 = 
   · simp [h1]
   · simp [h2]
 
-theorem reset_step (c : Config) (st : State) (op : Op) (hop : ∀ j d res ul, op ≠ .loginCut j d res ul)
+theorem reset_applyBreak (c : Config) (b : Break) (st : State) (h : obsClosed (applyBreak c b st).2 = true) :
+    cleared (applyBreak c b st).1 := by
+  cases b with
+  | writeFail => exact reset_closeServer _ st h
+  | close r => exact reset_closeServer _ st h
+  | stop => exact reset_doStop c st h
+  | srvEof => exact reset_closeServer _ st h
+
+theorem obsClosed_doLogin_accepted (c : Config) (st : State) (ha : st.srvReply = .accepted) :
+    obsClosed (doLogin c st).2 = false := by
+  simp [doLogin, ha, obsClosed]
+
+theorem reset_doLoginBreak (c : Config) (pos : Option Nat) (d : Nat) (b : Break) (st : State)
+    (h : obsClosed (doLoginBreak c pos d b st).2 = true) : cleared (doLoginBreak c pos d b st).1 := by
+  unfold doLoginBreak at h ⊢
+  cases pos with
+  | none =>
+    simp only [obsClosed_append] at h
+    apply reset_applyBreak
+    have e1 : obsClosed (if b = Break.writeFail then [] else [Obs.loginSent]) = false := by
+      split <;> simp [obsClosed]
+    have e2 : obsClosed [Obs.loginResult LoginResult.error] = false := by simp [obsClosed]
+    simpa [e1, e2] using h
+  | some j =>
+    simp only [] at h ⊢
+    have hf := obsClosed_doLogin_accepted c { st with srvReply := .accepted } rfl
+    split
+    · rename_i hj
+      rw [if_pos hj] at h
+      cases b with
+      | writeFail => simp [hf] at h
+      | close r =>
+        simp only [obsClosed_append, hf, Bool.false_or] at h
+        exact reset_applyBreak _ _ _ h
+      | stop =>
+        simp only [obsClosed_append, hf, Bool.false_or] at h
+        exact reset_applyBreak _ _ _ h
+      | srvEof =>
+        simp only [obsClosed_append, hf, Bool.false_or] at h
+        exact reset_applyBreak _ _ _ h
+    · rename_i hj
+      rw [if_neg hj] at h
+      have e1 : obsClosed [Obs.loginSent, Obs.sessionInit,
+          Obs.frames ((burst c (envOf c st)).take (min (j + 1) d))] = false := by simp [obsClosed]
+      have e2 : obsClosed [Obs.loginResult LoginResult.ok] = false := by simp [obsClosed]
+      cases b with
+      | writeFail =>
+        simp only [obsClosed_append, e1, e2, Bool.false_or, Bool.or_false] at h
+        exact reset_applyBreak _ _ _ h
+      | close r =>
+        simp only [obsClosed_append, e1, e2, Bool.false_or, Bool.or_false] at h
+        exact reset_applyBreak _ _ _ h
+      | stop =>
+        simp only [obsClosed_append, e1, e2, Bool.false_or, Bool.or_false] at h
+        exact reset_applyBreak _ _ _ h
+      | srvEof =>
+        simp only [obsClosed_append, hf, Bool.false_or] at h
+        exact reset_closeServer _ _ h
+
+theorem reset_step (c : Config) (st : State) (op : Op)
     (h : obsClosed (step c st op).2 = true) : cleared (step c st op).1 := by
   cases op with
   | start =>
@@ -593,7 +652,10 @@ theorem reset_step (c : Config) (st : State) (op : Op) (hop : ∀ j d res ul, op
     simp only [step] at h ⊢; split at h
     · rename_i hc; rw [if_pos hc]; exact reset_doLogin c st h
     · simp [obsClosed] at h
-  | loginCut j d res ul => exact absurd rfl (hop j d res ul)
+  | loginBreak pos d b =>
+    simp only [step] at h ⊢; split at h
+    · rename_i hc; rw [if_pos hc]; exact reset_doLoginBreak c pos d b st h
+    · simp [obsClosed] at h
   | exec => simp only [step] at h; split at h <;> simp [obsClosed] at h
   | populate => simp only [step] at h; split at h <;> simp [obsClosed] at h
   | search => simp only [step] at h; split at h <;> simp [obsClosed] at h
@@ -603,6 +665,24 @@ theorem reset_step (c : Config) (st : State) (op : Op) (hop : ∀ j d res ul, op
   | loss r =>
     simp only [step] at h ⊢; split at h
     · rename_i hc; rw [if_pos hc]; exact reset_closeServer r st h
+    · simp [obsClosed] at h
+  | lossHeld r =>
+    simp only [step] at h ⊢; split at h
+    · rename_i hc; rw [if_pos hc]
+      have := reset_closeServer r st h
+      simpa [cleared] using this
+    · simp [obsClosed] at h
+  | release => simp only [step] at h; split at h <;> simp [obsClosed] at h
+  | connect =>
+    simp only [step] at h ⊢; split at h
+    · rename_i hc; rw [if_pos hc]
+      unfold doConnect at h ⊢
+      split
+      · rename_i hu; simp [hu, obsClosed] at h
+      · rename_i hu
+        simp only [hu, obsClosed_append] at h
+        apply reset_closeServer
+        simpa [obsClosed] using h
     · simp [obsClosed] at h
   | tick => simp only [step] at h ⊢; exact reset_tickWd c _ h
   | setSrvUp b => simp [step, obsClosed] at h
